@@ -125,4 +125,20 @@ theorem grahamTie_false {rnd : Rat → Rat} {head : Pt} {l : List Pt}
   rw [h] at this
   exact Bool.false_ne_true this
 
+theorem grahamTie_mono {rnd : Rat → Rat} {head : Pt} {l l' : List Pt} (hs : ∀ x ∈ l, x ∈ l')
+    (h : grahamTie rnd head l' = false) : grahamTie rnd head l = false := by
+  cases ht : grahamTie rnd head l with
+  | false => rfl
+  | true =>
+    exfalso
+    unfold grahamTie at ht
+    simp only [List.any_eq_true] at ht
+    obtain ⟨q, hq, r, hr, hc⟩ := ht
+    have : grahamTie rnd head l' = true := by
+      unfold grahamTie
+      simp only [List.any_eq_true]
+      exact ⟨q, hs q hq, r, hs r hr, hc⟩
+    rw [h] at this
+    exact Bool.false_ne_true this
+
 end Geo.Proofs.C08
